@@ -218,8 +218,13 @@ def mgr_state(res):
         for i in res.obs.executors.values():
             alive += sum(1 for pid in i["processes"] if res.kernel.procs[pid].alive)
         ctx = ["ex-gone" if gone else "ex-alive", "w%s" % ("0" if alive == 0 else "+")]
+    dead = sorted(set(t["role"].rstrip("0123456789") for t in (res.sched.snapshot or [])
+                      if t.get("waits_for") and t["waits_for"].get("acquirer_alive") is False
+                      and t["role"] != "manager"))
+    if dead:
+        ctx.append("blocked-on-dead:" + "+".join(dead))
     es = getattr(res.kernel.procs[100], "exit_step", None)
-    if blocked and es is not None:
+    if blocked and es is not None and not dead:
         for t in (res.sched.snapshot or []):
             if t["pid"] == 100 and t["role"] == "manager" and t["what"] == "wait" and (
                     t["born_step"] >= es - 400):
@@ -227,11 +232,6 @@ def mgr_state(res):
                 # thread began interpreter shutdown: the exit protocol never reached it
                 ctx.append("manager-started-at-interpreter-exit")
                 break
-    dead = sorted(set(t["role"].rstrip("0123456789") for t in (res.sched.snapshot or [])
-                      if t.get("waits_for") and t["waits_for"].get("acquirer_alive") is False
-                      and t["role"] != "manager"))
-    if dead:
-        ctx.append("blocked-on-dead:" + "+".join(dead))
     if any("join_executor_internals/waitpid" in b for b in blocked) and not dead:
         swept = [t for (k_, t, s_) in res.kernel.kills if k_ == 100 and s_ == 9]
         for i in res.obs.executors.values():
